@@ -24,7 +24,8 @@ PROPS["C16"] = dict(
     technique="model-based PBT (rapid) against sorted-slice / multiset oracles + exhaustive permutations",
     rule=("cases = skip-list insertion orders (all permutations of <=5 (quick) / <=7 (thorough) keys, then rapid-generated "
           "int/reversed-int/string/bytes key sets) probed at every key and every gap with all bound pairs, and priority-queue "
-          "runs over 0..8 ascending inputs with duplicate keys; non-trivial = skip list with >=2 keys, >=1 absent probe and >=1 "
+          "runs over 0..8 ascending inputs with duplicate keys, and insert storms (200 000 inserts into short-lived maps per storm case, about 4e7 inserts per quick run, because node heights are "
+          "drawn inside the library and rare heights need millions of draws); non-trivial = skip list with >=2 keys, >=1 absent probe and >=1 "
           "range whose both bounds fall strictly between keys; queue run where an input ran dry while >=3 others were live and "
           "keys repeat across inputs; distinct = distinct case JSON (sha256)"),
     level_text=("Sorted-map and k-way-merge oracles over exhaustively enumerated small insertion orders plus thousands of "
@@ -88,8 +89,8 @@ PROPS["C08"] = dict(
 PROPS["C04"] = dict(
     pkg="props/c04", level="exploration", engine="E-model", design_ref="§4 C04",
     technique="model-based PBT (rapid): generated writer programs (Write/WriteSync/Seek) and reader programs vs list-of-survivors oracle; every SeekNext start offset",
-    rule=("case = compression x write buffer {1,7,64,4096,4Mi} x read buffer {4,7,64,4096,4Mi} x {buffered, direct-I/O (buffers 4096/8192/65536; files on a disk file system - /var/tmp or VERIF_SCRATCH_DISK - when there is one, because tmpfs ignores the alignment rules of O_DIRECT), buffered write + direct-I/O read} factory; writer program of "
-          "0..14 Write/WriteSync/Seek-back steps over nil/empty/patterned records (lengths around the buffers, 1024 and 4096 +-3; zero/0xff/0x91 fill, "
+    rule=("case = compression x write buffer {1,7,64,4096,4Mi} x read buffer {1,2,3,4,7,64,4096,4Mi} x {buffered, direct-I/O (buffers 4096/8192/65536; files on a disk file system - /var/tmp or VERIF_SCRATCH_DISK - when there is one, because tmpfs ignores the alignment rules of O_DIRECT), buffered write + direct-I/O read} factory; writer program of "
+          "0..14 Write/WriteSync/Seek-back steps over nil/empty/patterned records (lengths around the buffers, 1024 and 4096 +-3, and lengths whose record-header checksum has a boundary-shaped varint; zero/0xff/0x91 fill, "
           "marker-laden, marker+partial header, ending in 0x91 / 0x91 0x8d / full marker) then Close; checks: offsets/Size/file length, sequential read + EOF, "
           "a generated ReadNext/SkipNext program, ReadNextAt at every returned offset, SeekNext from EVERY byte offset 0..size (files <= 8 KiB) or +-4 around every "
           "record boundary and 4096 multiple; non-trivial = >=3 surviving records incl. a nil/empty one and (file larger than the write buffer or a seek-back or a "
@@ -107,7 +108,7 @@ PROPS["C12"] = dict(
     pkg="props/c12", level="fault_enumeration", engine="E-pos", design_ref="§4 C12",
     technique="PBT-generated files (rapid) x exhaustive single-fault enumeration: every truncation length, every record-header byte x replacement values, every unsupported file-header class",
     rule=("evaluation = one damaged copy of a generated file (1..12 nil/empty/patterned records, each compression type, write buffer {1,7,64,4096}, read buffer "
-          "{4,7,64,4096}) read by the sequential reader and by ReadNextAt at every written offset: (a) every truncation length 0..size, (b) every byte of every record "
+          "{1,2,4,7,64,4096}) read by the sequential reader and by ReadNextAt at every written offset: (a) every truncation length 0..size, (b) every byte of every record "
           "header set to all 255 other values (files <= 2 KiB) or to bit flips/0x00/0xff/continuation-bit set and cleared/marker bytes (longer files), (c) file-header version in "
           "{0,5,6,255,256,2^31,2^32-1} and compression in {4,5,255,256,2^31,2^32-1}; non-trivial = a cut strictly inside a record or the file header, any header-byte "
           "alteration, any file-header alteration; distinct = (case hash, position, value)"),
